@@ -326,6 +326,28 @@ impl Cso {
         }
     }
 
+    /// representatives written by RandomValueGenerator in a recorded run (they differ from run to run
+    /// and must be ignored when deciding whether an override changed the assignment)
+    pub fn random_reps(&self, recorded: &Run) -> std::collections::HashSet<usize> {
+        let mut s = std::collections::HashSet::new();
+        for (gi, outs) in recorded.gen_outputs.iter().enumerate() {
+            if self.gen_ids[gi].starts_with("RandomValueGenerator") {
+                for (t, _) in outs {
+                    s.insert(self.rep(*t));
+                }
+            }
+        }
+        s
+    }
+
+    /// true iff the two assignments differ outside the masked representatives
+    pub fn differs(&self, a: &[Option<F>], b: &[Option<F>], mask: &std::collections::HashSet<usize>) -> bool {
+        if mask.is_empty() {
+            return a != b;
+        }
+        a.iter().zip(b.iter()).enumerate().any(|(i, (x, y))| x != y && !mask.contains(&i))
+    }
+
     pub fn gate_name(&self, i: usize) -> &str {
         &self.gate_ids[i]
     }
